@@ -321,9 +321,55 @@ def translate_check_types(cls, name, is_async):
     return steps
 
 
+def check_type_param_shape(cls):
+    """the decision chain of _check_type_param that Model.Pedantic.pass_named models by hand: per parameter, the value comes from
+    the keyword (never for a positional-only parameter), else from the next positional value (positional parameters only, whether
+    or not there is a default), else from the default.  The shapes before the repairs are refused by name."""
+    f = find_in(cls, '_check_type_param', UNIT)
+    W = '_check_type_param'
+    loops = [n for n in f.body if isinstance(n, ast.For)]
+    if len(loops) != 1 or not same(loops[0].iter, 'params.items()'):
+        bad(f'{W}: not a single loop over params.items()')
+    body = loops[0].body
+    chains = [n for n in body if isinstance(n, ast.If) and n.orelse]
+    if len(chains) != 1:
+        bad(f'{W}: expected exactly one if / elif chain choosing the value to check')
+    tests, node = [], chains[0]
+    while True:
+        tests.append(node.test)
+        if len(node.orelse) == 1 and isinstance(node.orelse[0], ast.If):
+            node = node.orelse[0]
+        else:
+            last = node.orelse
+            break
+    if any(same(t, 'param.default is inspect.Signature.empty') for t in tests[:1]):
+        bad(f'{W}: the positional value is only looked at for a parameter without default - the shape of the findings '
+            'C03-defaulted-positional-unchecked / C04-defaulted-leading-positional (repaired by f0d33a4)')
+    if tests and same(tests[0], 'key in self.kwargs'):
+        bad(f'{W}: a positional-only parameter is looked up among the keyword arguments - the shape of the findings '
+            'C03-posonly-name-as-keyword / C04-posonly-name-as-keyword (repaired by b2616e5)')
+    expected = ['takes_keyword and key in self.kwargs',
+                'param.kind in takes_positional and (not self.func.should_have_kwargs) and arg_index < len(self.args)',
+                'param.default is not inspect.Signature.empty']
+    if len(tests) != 3 or not all(same(t, e) for t, e in zip(tests, expected)):
+        bad(f'{W}: the if / elif chain is no longer [by keyword | positional | default | unfilled]')
+    if not (len(last) == 1 and isinstance(last[0], ast.Raise)):
+        bad(f'{W}: the last branch no longer raises (unfilled parameter)')
+    defs = {ast.unparse(n.targets[0]): n.value for n in list(f.body) + list(body) if isinstance(n, ast.Assign) and len(n.targets) == 1}
+    if not ('takes_keyword' in defs and same(defs['takes_keyword'], 'param.kind is not inspect.Parameter.POSITIONAL_ONLY')):
+        bad(f'{W}: takes_keyword is no longer `param.kind is not inspect.Parameter.POSITIONAL_ONLY`')
+    if not ('takes_positional' in defs and same(defs['takes_positional'], '(inspect.Parameter.POSITIONAL_ONLY, inspect.Parameter.POSITIONAL_OR_KEYWORD)')):
+        bad(f'{W}: takes_positional is no longer (POSITIONAL_ONLY, POSITIONAL_OR_KEYWORD)')
+    marks = [n for n in body if isinstance(n, ast.If) and not n.orelse]
+    if not (len(marks) == 1 and same(marks[0].test, 'takes_keyword') and len(marks[0].body) == 1
+            and same(marks[0].body[0], 'self._already_checked_kwargs.append(key)', 'stmt')):
+        bad(f'{W}: the name of a parameter is no longer marked as checked exactly when the parameter takes keywords')
+
+
 def translate_function_call():
     src, tree = load(FC)
     cls = find_class(tree, 'FunctionCall', UNIT)
+    check_type_param_shape(cls)
     for name, text in {'func': 'self._func', 'args': 'self._args', 'kwargs': 'self._kwargs',
                        'params_without_self': 'self._params_without_self',
                        'not_yet_check_kwargs': '{k: v for k, v in self._kwargs.items() if k not in self._already_checked_kwargs}'}.items():
@@ -420,8 +466,19 @@ def translate_generator_wrapper():
     for bname in bases:
         if bname[1:] not in bound:
             bad(f'GeneratorWrapper: {bname[1:]} is not imported from typing')
+    # __next__ resumes the generator without sending anything (Model.GenWrapper.w_next); the shape before the repair is refused by name
+    nx = strip_doc(find_in(cls, '__next__', UNIT).body)
+    if len(nx) == 1 and same(nx[0], 'return self.send(obj=None)', 'stmt'):
+        bad('GeneratorWrapper.__next__ is send(None): the None is checked against the send type - the shape of the finding '
+            'C04-generator-next-send-type (repaired by a25625d)')
+    if not (len(nx) == 2 and same(nx[0], 'self._initialized = True', 'stmt') and same(nx[1], 'return self._resume(obj=None)', 'stmt')):
+        bad('GeneratorWrapper.__next__ is no longer `self._initialized = True; return self._resume(obj=None)`')
+    sd = strip_doc(find_in(cls, 'send', UNIT).body)
+    if not (len(sd) == 2 and isinstance(sd[0], ast.If) and same(sd[0].test, 'self._initialized')
+            and same(sd[1], 'return self._resume(obj=obj)', 'stmt')):
+        bad('GeneratorWrapper.send is no longer `if self._initialized: <check obj> else: <mark>; return self._resume(obj=obj)`')
     locks = {f'GeneratorWrapper.{n}': lock(find_in(cls, n, UNIT)) for n in
-             ('__init__', '__iter__', '__next__', '__getattr__', 'throw', 'close', 'send', '_set_and_check_return_types')}
+             ('__init__', '__iter__', '__next__', '__getattr__', 'throw', 'close', 'send', '_resume', '_set_and_check_return_types')}
     return bases, locks, provenance(GW, src, cls)
 
 
